@@ -110,6 +110,163 @@ func runCFG(fn *ir.Function) string {
 	return encGraph(fn)
 }
 
+
+// ---------------------------------------------------------------------------
+// The CFG as pass.Compile builds it (in situ)
+// ---------------------------------------------------------------------------
+
+// c09Clone copies a function node by node (instructions are cloned structs with their own operand slices), so that
+// the route through pass.Compile and the route through LabelTarget + CFG alone never share mutable state.
+func c09Clone(fn *ir.Function) *ir.Function {
+	out := ir.NewFunction("f")
+	for _, n := range fn.Nodes {
+		switch n := n.(type) {
+		case *ir.Instruction:
+			c := *n
+			c.Operands = append([]operand.Op(nil), n.Operands...)
+			c.Inputs = append([]operand.Op(nil), n.Inputs...)
+			c.Outputs = append([]operand.Op(nil), n.Outputs...)
+			c.Pred, c.Succ, c.LiveIn, c.LiveOut = nil, nil, nil, nil
+			out.Nodes = append(out.Nodes, &c)
+		case *ir.Comment:
+			c := *n
+			out.Nodes = append(out.Nodes, &c)
+		default:
+			out.Nodes = append(out.Nodes, n)
+		}
+	}
+	return out
+}
+
+// c09Pressure returns instructions that keep 17 64-bit general-purpose virtual registers alive at once. Put in front of
+// a function they make pass.Compile stop with an error in AllocateRegisters, i.e. AFTER Verify, the two pruning passes,
+// LabelTarget, CFG and Liveness have run on the function in their real order and BEFORE PruneSelfMoves clears Succ/Pred
+// again: the graph built inside the real pipeline can then be read off the function.
+func c09Pressure() []ir.Node {
+	col := reg.NewCollection()
+	var vs []reg.GPVirtual
+	var out []ir.Node
+	for k := 0; k < 17; k++ {
+		v := col.GP64()
+		vs = append(vs, v)
+		inst, err := x86.VerifBuild("MOVQ", nil, []operand.Op{operand.I32(int32(k)), v})
+		if err != nil || inst == nil {
+			c09BuildFailed["MOVQ"]++
+			return nil
+		}
+		out = append(out, inst)
+	}
+	for k := 1; k < 17; k++ {
+		inst, err := x86.VerifBuild("ADDQ", nil, []operand.Op{vs[k], vs[0]})
+		if err != nil || inst == nil {
+			c09BuildFailed["ADDQ"]++
+			return nil
+		}
+		out = append(out, inst)
+	}
+	return out
+}
+
+// c09NodeInstrs lists the instructions of fn.Nodes without going through any accessor of the implementation.
+func c09NodeInstrs(fn *ir.Function) []*ir.Instruction {
+	var is []*ir.Instruction
+	for _, n := range fn.Nodes {
+		if i, ok := n.(*ir.Instruction); ok {
+			is = append(is, i)
+		}
+	}
+	return is
+}
+
+// encGraphNodes is encGraph with the instruction list and the index map taken from fn.Nodes directly.
+func encGraphNodes(fn *ir.Function) string {
+	is := c09NodeInstrs(fn)
+	idx := map[*ir.Instruction]int{}
+	for k, i := range is {
+		idx[i] = k
+	}
+	parts := []string{"ok", itoa(len(is))}
+	for _, i := range is {
+		var s []int
+		for _, x := range i.Succ {
+			if x == nil {
+				continue
+			}
+			s = append(s, c09Idx(idx, x))
+		}
+		s = sortedSet(s)
+		parts = append(parts, itoa(len(s)))
+		for _, x := range s {
+			parts = append(parts, itoa(x))
+		}
+	}
+	for _, i := range is {
+		var p []int
+		for _, x := range i.Pred {
+			if x == nil {
+				p = append(p, 1000001)
+				continue
+			}
+			p = append(p, c09Idx(idx, x))
+		}
+		p = sortedSet(p)
+		parts = append(parts, itoa(len(p)))
+		for _, x := range p {
+			parts = append(parts, itoa(x))
+		}
+	}
+	return strings.Join(parts, " ")
+}
+
+// runCFGInPipeline runs the REAL pass.Compile on a file holding (pressure prefix + a clone of fn). It returns the node
+// list as the pipeline left it (after the pruning passes) and the outcome read off the function: "err" when the pipeline
+// stopped before Liveness (every error of LabelTarget/CFG does), the graph found on the instructions otherwise.
+// judged=false: the pipeline did not stop in the allocator (nothing to read: PruneSelfMoves clears the graph), or panicked
+// outside LabelTarget/CFG's business; the caller counts these and the check has a floor on the judged ones.
+func runCFGInPipeline(fn *ir.Function) (req, resp string, judged bool, why string) {
+	c, err, panicked, why := c09CompileUnderPressure(fn)
+	if c == nil {
+		return "", "", false, why
+	}
+	req = encNodes(c)
+	if panicked {
+		return req, "err panic", true, ""
+	}
+	if err == nil {
+		return req, "", false, "compiled"
+	}
+	if !c09LivenessReached(c) {
+		return req, "err", true, ""
+	}
+	return req, encGraphNodes(c), true, ""
+}
+
+// c09CompileUnderPressure runs the real pass.Compile on a file holding (pressure prefix + a clone of fn) and returns the
+// clone as the pipeline left it, with the pipeline's error.
+func c09CompileUnderPressure(fn *ir.Function) (c *ir.Function, err error, panicked bool, why string) {
+	pre := c09Pressure()
+	if pre == nil {
+		return nil, nil, false, "no_pressure"
+	}
+	c = c09Clone(fn)
+	c.Nodes = append(pre, c.Nodes...)
+	f := ir.NewFile()
+	f.AddSection(c)
+	err, panicked = safely(func() error { return pass.Compile.Execute(f) })
+	return c, err, panicked, ""
+}
+
+// c09LivenessReached: every instruction carries live sets, i.e. the pipeline got past LabelTarget, CFG and Liveness.
+func c09LivenessReached(c *ir.Function) bool {
+	is := c09NodeInstrs(c)
+	for _, i := range is {
+		if i.LiveIn == nil || i.LiveOut == nil {
+			return false
+		}
+	}
+	return len(is) > 0
+}
+
 var lastCFGErrClass string
 
 func init() {
@@ -187,6 +344,23 @@ func init() {
 			}
 			o.emit("cfg "+req, resp)
 			o.emit("accept-cfg "+req+" => "+resp, "ok")
+			// the same function through the real pass.Compile: the graph as the pipeline builds it, on the node list
+			// as the pipeline's earlier passes left it
+			if preq, presp, judged, why := runCFGInPipeline(fn); judged {
+				stats["pipe:judged"]++
+				if strings.HasPrefix(presp, "err") {
+					stats["pipe:err"]++
+				} else {
+					stats["pipe:ok"]++
+				}
+				if strings.Count(preq, " L ") < strings.Count(req, " L ") || strings.Count(preq, " I ")-33 < strings.Count(req, " I ") {
+					stats["pipe:pruned_something"]++
+				}
+				o.emit("cfg "+preq, presp)
+				o.emit("accept-cfg "+preq+" => "+presp, "ok")
+			} else {
+				stats["pipe:skipped:"+why]++
+			}
 		}
 		// stream 1: functions built by the shared generator from the real form table
 		for k := 0; k < *f.n; k++ {
